@@ -395,7 +395,7 @@ func (e *Exec) execBlock(fr *frame, b *ssa.BasicBlock, pred *ssa.BasicBlock, st 
 				}
 			}
 			e.evalPhis(b, pred, st)
-			e.boundedHeader(fr, li, st)
+			e.boundedHeader(fr, li, st, pred != nil && li.body[pred])
 			e.execInstrs(fr, b, firstNonPhi(b), st)
 			return
 		}
@@ -498,7 +498,7 @@ func (e *Exec) propsFor(fr *frame, kind string) []string {
 
 // boundedHeader (bounded fallback mode): the contract's invariants that can still be evaluated on the
 // current code are asserted as facts at every visit of the loop header within the bound (nothing is assumed).
-func (e *Exec) boundedHeader(fr *frame, li *loopInfo, st *State) {
+func (e *Exec) boundedHeader(fr *frame, li *loopInfo, st *State, fromInside bool) {
 	if li.spec == nil {
 		return
 	}
@@ -521,6 +521,20 @@ func (e *Exec) boundedHeader(fr *frame, li *loopInfo, st *State) {
 			continue
 		}
 		e.oblige(st, fmt.Sprintf("%s/inv-bounded:%s", name, inv.Label), invProps, g, "")
+	}
+	// `loop k increases`: compared between consecutive visits of the header on this path
+	if li.spec.Increases != nil {
+		m, err := e.evalSpec(li.spec.Increases, &specEnv{into: st, st: st, old: e.entry, vars: vars, oldVars: e.entryVars, fr: fr, pkg: pkgOf(fr.fn)})
+		if err != nil {
+			e.notes = appendUnique(e.notes, fmt.Sprintf("%s: increases: %v", name, err))
+			e.oblige(st, name+"/progress", e.propsFor(fr, "safety"), BoolLit(false), fmt.Sprintf("the progress expression of the contract cannot be evaluated on the current code: %v", err))
+			return
+		}
+		if lc := st.inLoop[li.header]; fromInside && lc != nil && lc.progress != nil {
+			e.oblige(st, name+"/progress", e.propsFor(fr, "safety"), Gt(m.L[0], *lc.progress), "the expression named by `increases` is strictly greater at every revisit of the loop header: every iteration advances")
+		}
+		mm := e.ctx.def("progress", m.L[0])
+		st.inLoop[li.header] = &loopCtx{progress: &mm}
 	}
 }
 
@@ -583,6 +597,17 @@ func (e *Exec) loopHeader(fr *frame, li *loopInfo, b, pred *ssa.BasicBlock, st *
 				} else {
 					e.notes = appendUnique(e.notes, fmt.Sprintf("%s: decreases: %v", name, err))
 					e.oblige(st, name+"/decreases", e.propsFor(fr, "safety"), BoolLit(false), fmt.Sprintf("the termination measure of the contract cannot be evaluated on the current code: %v", err))
+				}
+			}
+		}
+		if li.spec.Increases != nil {
+			if lc := st.inLoop[b]; lc != nil && lc.progress != nil {
+				m, err := e.evalSpec(li.spec.Increases, &specEnv{into: st, st: st, old: e.entry, vars: vars, oldVars: e.entryVars, fr: fr, pkg: pkgOf(fr.fn)})
+				if err == nil {
+					e.oblige(st, name+"/progress", e.propsFor(fr, "safety"), Gt(m.L[0], *lc.progress), "the expression named by `increases` is strictly greater at every back edge than at the loop header: every iteration advances")
+				} else {
+					e.notes = appendUnique(e.notes, fmt.Sprintf("%s: increases: %v", name, err))
+					e.oblige(st, name+"/progress", e.propsFor(fr, "safety"), BoolLit(false), fmt.Sprintf("the progress expression of the contract cannot be evaluated on the current code: %v", err))
 				}
 			}
 		}
@@ -745,6 +770,16 @@ func (e *Exec) loopHeader(fr *frame, li *loopInfo, b, pred *ssa.BasicBlock, st *
 		if err == nil {
 			mm := e.ctx.def("measure", m.L[0])
 			lc.measure = &mm
+		}
+	}
+	if li.spec.Increases != nil {
+		m, err := e.evalSpec(li.spec.Increases, &specEnv{into: hst, st: hst, old: e.entry, vars: vars, oldVars: e.entryVars, fr: fr, pkg: pkgOf(fr.fn)})
+		if err == nil {
+			mm := e.ctx.def("progress", m.L[0])
+			lc.progress = &mm
+		} else {
+			e.notes = appendUnique(e.notes, fmt.Sprintf("%s: increases: %v", fnName(fr.fn), err))
+			e.oblige(hst, fmt.Sprintf("%s/loop%d/progress", fnName(fr.fn), li.ordinal), e.propsFor(fr, "safety"), BoolLit(false), fmt.Sprintf("the progress expression of the contract cannot be evaluated on the current code: %v", err))
 		}
 	}
 	hst.inLoop[b] = lc
